@@ -139,7 +139,13 @@ def write_union(encoder, datum, schema, named_schemas, fname, options):
     is then encoded per the indicated schema within the union."""
 
     best_match_index = -1
-    if isinstance(datum, tuple) and not options.get("disable_tuple_notation"):
+    # Only a pair can be the (name, value) notation; any other tuple is a
+    # plain sequence (unpacking it here would raise instead of answering)
+    if (
+        isinstance(datum, tuple)
+        and len(datum) == 2
+        and not options.get("disable_tuple_notation")
+    ):
         (name, datum) = datum
         for index, candidate in enumerate(schema):
             extracted_type = extract_record_type(candidate)
